@@ -167,6 +167,231 @@ func TestVerifC03(t *testing.T) {
 			Info: map[string]interface{}{"outcome": fmt.Sprintf("min=%x max=%x auth=%d", cfg.MinVersion, cfg.MaxVersion, cfg.ClientAuth)}})
 	}
 	vC03EndToEnd(t, r, pool, ecKey)
+	// a generator of its own: streams of neighbouring seeds of vRand are one stream shifted by one draw and fall
+	// into step after loops with a variable number of draws
+	r2 := vNewRand((vSeed()+1)*1000003 + 0x303)
+	vC03ReplaceAPI(r2, pool)
+	vC03CurrentList(r2, pool)
+}
+
+// "currently accepts": after PublicKeys.Replace the store answers for the new list and for nothing else,
+// whatever the new list is - in particular the empty list (nil or empty slice: accept nobody).
+func vC03ReplaceAPI(r *vRand, pool []vKeyPair) {
+	n := 60
+	if vThorough() {
+		n = 600
+	}
+	for i := 0; i < n; i++ {
+		pick := func(m int) []ed25519.PublicKey {
+			var ks []ed25519.PublicKey
+			for j := 0; j < m; j++ {
+				ks = append(ks, pool[r.Intn(len(pool))].Pub)
+			}
+			return ks
+		}
+		first := pick(1 + r.Intn(3))
+		store, err := credentials.ValidPublicKeysFromEd25519(first...)
+		if err != nil {
+			panic(err)
+		}
+		verify := store.VerifyPeerCertificate() // obtained once, as the tls.Config does
+		var hist []string
+		fail, detail := "", ""
+		steps := 1 + r.Intn(3)
+		for st := 0; st < steps && fail == ""; st++ {
+			var next []ed25519.PublicKey
+			kind := ""
+			switch r.Intn(5) {
+			case 0:
+				next, kind = nil, "nil"
+			case 1:
+				next, kind = []ed25519.PublicKey{}, "empty"
+			default:
+				next = pick(1 + r.Intn(3))
+				kind = fmt.Sprintf("%d keys", len(next))
+			}
+			hist = append(hist, kind)
+			np, err := credentials.ValidPublicKeysFromEd25519(next...)
+			if err != nil {
+				panic(err)
+			}
+			store.Replace(np)
+			for pi, kp := range pool {
+				want := false
+				for _, k := range next {
+					if string(k) == string(kp.Pub) {
+						want = true
+					}
+				}
+				got := store.Contains(kp.Pub)
+				gotV := verify([][]byte{vSelfSigned(kp.Priv)}, nil) == nil
+				if got != want || gotV != want {
+					fail = "allow-list-replace-not-effective/" + strings.TrimLeft(kind, "0123456789 ")
+					detail = fmt.Sprintf("after Replace(%s): pool key %d listed=%v Contains=%v verifier-accepts=%v", kind, pi, want, got, gotV)
+					break
+				}
+			}
+			if len(store.Keys()) != len(next) && fail == "" {
+				fail = "allow-list-replace-not-effective/" + strings.TrimLeft(kind, "0123456789 ")
+				detail = fmt.Sprintf("after Replace(%s): Keys() has %d entries, want %d", kind, len(store.Keys()), len(next))
+			}
+		}
+		vEmit(vCase{Class: "replace", Fail: fail, Sig: fmt.Sprintf("replace/%d/%v/%d", len(first), hist, i%5),
+			Info: map[string]interface{}{"first": len(first), "history": hist, "outcome": fail == "", "detail": detail}})
+	}
+}
+
+// vSession dials with the given TLS configuration and reports whether the peer got a session (the server
+// answers a request), whether the TLS handshake was a resumption, and the dial error.
+func vC03Session(addr string, cfg *tls.Config, wait time.Duration) (served, resumed bool, derr error) {
+	d := websocket.Dialer{TLSClientConfig: cfg, HandshakeTimeout: 5 * time.Second}
+	conn, _, err := d.Dial("wss://"+addr, http.Header{})
+	if err != nil {
+		return false, false, err
+	}
+	defer conn.Close()
+	if tc, ok := conn.UnderlyingConn().(*tls.Conn); ok {
+		resumed = tc.ConnectionState().DidResume
+	}
+	if err := conn.WriteMessage(websocket.BinaryMessage, vSizedRequest(120, "00000000-0000-4000-8000-0000000c0303")); err != nil {
+		return false, resumed, nil
+	}
+	conn.SetReadDeadline(time.Now().Add(wait))
+	_, _, rerr := conn.ReadMessage()
+	return rerr == nil, resumed, nil
+}
+
+// The allow-list consulted is the CURRENT one, over real sockets: keys taken off the list by an update (to
+// the empty list, or to other keys) get no session any more - neither by a full handshake nor by resuming a
+// TLS session obtained while they were listed (crypto/tls does not run VerifyPeerCertificate on resumption).
+func vC03CurrentList(r *vRand, pool []vKeyPair) {
+	skey, good, other := pool[0], pool[1], pool[3]
+	for _, entry := range []string{"WithCreds", "WithSigner"} {
+		start := func() (*Server, *vImpl, string) {
+			lis, _ := net.Listen("tcp", "127.0.0.1:0")
+			var s *Server
+			if entry == "WithCreds" {
+				s = NewServer(WithCreds(skey.Priv, []ed25519.PublicKey{good.Pub, other.Pub}))
+			} else {
+				s = NewServer(WithSigner(skey.Priv, []ed25519.PublicKey{good.Pub, other.Pub}))
+			}
+			impl := &vImpl{}
+			s.RegisterService(vDesc(), impl)
+			go s.Serve(lis)
+			return s, impl, lis.Addr().String()
+		}
+		// ---- update to the empty allow-list: nobody is accepted afterwards
+		for _, how := range []string{"no-arguments", "empty-slice"} {
+			s, impl, addr := start()
+			c := vCase{Class: "e2e/" + entry + "/empty-allow-list/" + how, Sig: entry + "empty" + how}
+			info := map[string]interface{}{}
+			c.Info = info
+			// while listed: served (patiently: this one must succeed)
+			before, _, derr := vC03Session(addr, vClientTLS(good, skey.Pub), 3*time.Second)
+			vWaitUntil(3*time.Second, func() bool { return s.OpenConnections() == 0 })
+			impl.take()
+			var uerr error
+			if how == "no-arguments" {
+				uerr = s.UpdatePublicKeys()
+			} else {
+				uerr = s.UpdatePublicKeys([]ed25519.PublicKey{}...)
+			}
+			switch {
+			case !before:
+				c.Fail = "auth-e2e/listed-peer-refused"
+				info["dial_err"] = fmt.Sprint(derr)
+			case uerr != nil:
+				c.Fail = "auth-e2e/empty-update-refused"
+				info["update_err"] = uerr.Error()
+			default:
+				var got []string
+				for _, k := range []vKeyPair{good, other} {
+					served, _, err := vC03Session(addr, vClientTLS(k, skey.Pub), 700*time.Millisecond)
+					got = append(got, fmt.Sprintf("served=%v dial_err=%v", served, err != nil))
+					if served && c.Fail == "" {
+						c.Fail = "auth-e2e/served-although-allow-list-is-empty"
+					}
+				}
+				vWaitUntil(2*time.Second, func() bool { return s.OpenConnections() == 0 })
+				handled := len(impl.take())
+				info["outcome"] = fmt.Sprintf("after the empty update: %v handled=%d open=%d", got, handled, s.OpenConnections())
+				if (handled > 0 || s.OpenConnections() != 0) && c.Fail == "" {
+					c.Fail = "auth-e2e/served-although-allow-list-is-empty"
+				}
+				// and the list can be filled again
+				if c.Fail == "" {
+					if err := s.UpdatePublicKeys(good.Pub); err != nil {
+						c.Fail = "auth-e2e/update-refused"
+					} else if again, _, _ := vC03Session(addr, vClientTLS(good, skey.Pub), 3*time.Second); !again {
+						c.Fail = "auth-e2e/listed-peer-refused"
+					}
+				}
+			}
+			vEmit(c)
+			vStop(s, 5*time.Second)
+		}
+		// ---- a revoked key comes back with the TLS session it obtained while it was listed
+		for _, cert := range []string{"library-certificate", "certificate-with-validity-period"} {
+			s, impl, addr := start()
+			c := vCase{Class: "e2e/" + entry + "/resumption/" + cert, Sig: entry + "resume" + cert}
+			info := map[string]interface{}{"certificate": cert}
+			c.Info = info
+			cfg := vClientTLS(good, skey.Pub)
+			cfg.ClientSessionCache = tls.NewLRUClientSessionCache(8)
+			if cert == "certificate-with-validity-period" {
+				// everything here is under the peer's control: its own self-signed certificate for its listed key
+				// with a validity period (the server declines to resume when the client certificate kept in the
+				// ticket has expired, and the library's minimal certificate has a zero NotAfter), and its own clock
+				// (Go's TLS client declines to resume when the server certificate has expired; other stacks do not care)
+				tmpl := x509.Certificate{SerialNumber: big.NewInt(1), NotBefore: time.Now().Add(-time.Hour), NotAfter: time.Now().Add(24 * time.Hour)}
+				der, err := x509.CreateCertificate(rand.Reader, &tmpl, &tmpl, good.Priv.Public(), good.Priv)
+				if err != nil {
+					panic(err)
+				}
+				cfg.Certificates = []tls.Certificate{{Certificate: [][]byte{der}, PrivateKey: good.Priv}}
+				cfg.Time = func() time.Time { return time.Time{} }
+			}
+			first, _, derr := vC03Session(addr, cfg, 3*time.Second)
+			vWaitUntil(3*time.Second, func() bool { return s.OpenConnections() == 0 })
+			second, resumedListed, _ := vC03Session(addr, cfg, 3*time.Second)
+			vWaitUntil(3*time.Second, func() bool { return s.OpenConnections() == 0 })
+			info["resumed_while_listed"] = resumedListed
+			if !resumedListed {
+				info["note"] = "no TLS resumption with this credential on this tree/toolchain: the attempts after the revocation are full handshakes"
+			}
+			impl.take()
+			uerr := s.UpdatePublicKeys(other.Pub)
+			switch {
+			case !first || !second:
+				c.Fail = "auth-e2e/listed-peer-refused"
+				info["dial_err"] = fmt.Sprint(derr)
+			case uerr != nil:
+				c.Fail = "auth-e2e/update-refused"
+			default:
+				var got []string
+				for attempt := 0; attempt < 4; attempt++ {
+					served, resumed, err := vC03Session(addr, cfg, 700*time.Millisecond)
+					got = append(got, fmt.Sprintf("resumed=%v served=%v dial_err=%v", resumed, served, err != nil))
+					if served && c.Fail == "" {
+						c.Fail = "revoked-key-served-after-resumption/" + cert
+						info["detail"] = fmt.Sprintf("attempt %d after the revocation: resumed=%v served=true", attempt, resumed)
+					}
+				}
+				vWaitUntil(2*time.Second, func() bool { return s.OpenConnections() == 0 })
+				handled := len(impl.take())
+				info["outcome"] = fmt.Sprintf("after the revocation: %v handled=%d open=%d", got, handled, s.OpenConnections())
+				if (handled > 0 || s.OpenConnections() != 0) && c.Fail == "" {
+					c.Fail = "revoked-key-served-after-resumption/" + cert
+				}
+				// the key that stayed listed is served
+				if by, _, _ := vC03Session(addr, vClientTLS(other, skey.Pub), 3*time.Second); !by && c.Fail == "" {
+					c.Fail = "auth-e2e/listed-peer-refused"
+				}
+			}
+			vEmit(c)
+			vStop(s, 5*time.Second)
+		}
+	}
 }
 
 // every way of not being an allow-listed Ed25519 peer must yield no session and no dispatch
